@@ -242,10 +242,19 @@ def loop_progress(eng, fi: FuncInfo, loop: ast.While) -> Tuple[bool, str, str]:
                 cursor = n.args[0].id
         if isinstance(n, ast.Call) and isinstance(n.func, ast.Attribute) and n.func.attr in ("find", "rfind") and isinstance(n.func.value, ast.Name):
             cursor = n.func.value.id
-    cmp_ = test.values[0] if isinstance(test, ast.BoolOp) and isinstance(test.op, ast.And) else test
-    if isinstance(cmp_, ast.Compare) and isinstance(cmp_.left, ast.Name) and len(cmp_.ops) == 1:
-        op = cmp_.ops[0]
-        nm = cmp_.left.id
+    cmps = list(test.values) if isinstance(test, ast.BoolOp) and isinstance(test.op, ast.And) else [test]
+    flipop = {ast.Lt: ast.Gt, ast.Gt: ast.Lt, ast.LtE: ast.GtE, ast.GtE: ast.LtE}
+    for cmp_ in cmps:
+        if counter is not None:
+            break
+        if not (isinstance(cmp_, ast.Compare) and len(cmp_.ops) == 1):
+            continue
+        left, op, right = cmp_.left, cmp_.ops[0], cmp_.comparators[0]
+        if not isinstance(left, ast.Name) and isinstance(right, ast.Name) and type(op) in flipop:
+            left, right, op = right, left, flipop[type(op)]()
+        if not isinstance(left, ast.Name):
+            continue
+        nm = left.id
         augs = [n for n in own_nodes(loop) if isinstance(n, ast.AugAssign) and isinstance(n.target, ast.Name) and n.target.id == nm]
         if augs:
             counter = nm
